@@ -111,7 +111,10 @@ def run(sc, tape_mode="log", script=None, provider=None):
     else:
         ex = BatchSage(model, names, loss, **kw)
     # harness-side wrappers (instance level) around imputer.impute and storage.update
-    imp = ex._imputer
+    from harness.gen_explainer import find_part
+    from ixai.imputer.base import BaseImputer
+    from ixai.storage.base import BaseStorage
+    imp = find_part(ex, BaseImputer, "_imputer")
     orig_impute = imp.impute
 
     def impute(*a, **k):
@@ -124,7 +127,7 @@ def run(sc, tape_mode="log", script=None, provider=None):
         finally:
             st["events"].append({"k": "impute_end"})
     imp.impute = impute
-    sto = ex._storage
+    sto = find_part(ex, BaseStorage, "_storage")
     orig_update = sto.update
 
     def update(*a, **k):
